@@ -1466,6 +1466,8 @@ class Engine:
                 ta = z3.BoolVal(ta) if isinstance(ta, bool) else ta
                 tb = z3.BoolVal(tb) if isinstance(tb, bool) else tb
                 return SV(z3.If(c, ta, tb), "bool")
+            if is_intlike(a) and is_intlike(b):
+                return SV(z3.If(c, zint(a), zint(b)), "int")      # keep integer sort (is_int reasoning)
             return SV(z3.If(c, zreal(a), zreal(b)), "real")
         return self.eval(n.body if self.branch(c) else n.orelse, fr)
 
